@@ -22,7 +22,8 @@ def junk_lines(src, rnd):
         out.append(l)
         r = rnd.randrange(10)
         if r == 0:
-            out += [b''] * rnd.randrange(1, 4)
+            # runs of blank lines, some of them holding only spaces / tabs
+            out += [rnd.choice((b'', b'', b'  ', b'\t', b'   \t ')) for _ in range(rnd.randrange(1, 4))]
         elif r == 1:
             out.append(b'   -- note ' + bytes([rnd.randrange(48, 122)]))
     return b'\n'.join(out)
